@@ -29,6 +29,9 @@ var c12ExecFailTemplates = []string{
 	"P-{{ .keep.y.z }}", "{{ .keep.y }}:{{ fail \"boom\" }}",
 }
 
+// texts that do not parse (see c12TemplateText): the operation fails, nothing is stored but the empty text
+var c12NoParseTemplates = []string{"true{{ .flagT", "{{", "T-{{ .flagT }", "}} {{ .flagT", "true{{ end }}", "{{ .flagT }}{{ nosuchfunc }}"}
+
 // c12SeqBasics: the smallest sequences first (so that a failure is reported on a minimal one): a template
 // operation — one that renders a boolean, one that renders something else, each of the templates that fail at
 // execution time — at the top of the first action or two levels down, followed by an action whose condition
@@ -36,6 +39,7 @@ var c12ExecFailTemplates = []string{
 func c12SeqBasics() []c12Seq {
 	var out []c12Seq
 	texts := append([]string{"{{ .flagT }}", "{{ .flagF }}", " true ", "{{ .flagT }}-a", "{{ .nokey }}"}, c12ExecFailTemplates...)
+	texts = append(texts, c12NoParseTemplates...)
 	for _, t := range texts {
 		for _, deep := range []bool{false, true} {
 			first := c12Act{Name: "a", Ops: []c12Op{{K: "template", Tmpl: t, Path: "t.a"}, {K: "log", Msg: "after-template"}}}
@@ -77,6 +81,14 @@ func c12GenSeq(r *rand.Rand) c12Seq {
 		}
 		p.Roots = append(p.Roots, root)
 	}
+	if r.Intn(5) == 0 {
+		// REPEATED USE: an action of the sequence executed once more, by the same executor, on what the others left
+		again := p.Roots[r.Intn(len(p.Roots))]
+		var cp c12Act
+		b, _ := json.Marshal(again)
+		_ = json.Unmarshal(b, &cp)
+		p.Roots = append(p.Roots, cp)
+	}
 	return p
 }
 
@@ -108,6 +120,9 @@ func c12EvalSeq(c *Ctx, raw []byte) {
 		if o.K == "template" && c12FailsAtExecution(o.Tmpl) {
 			c.Dist("seq:template-failing-at-execution")
 		}
+		if o.K == "template" && c12DoesNotParse(o.Tmpl) {
+			c.Dist("seq:template-that-does-not-parse")
+		}
 	})
 
 	// the model: one exec per action, each on the data the previous one left
@@ -129,8 +144,27 @@ func c12EvalSeq(c *Ctx, raw []byte) {
 		var specs []pipeline.Action
 		decoded := true
 		for i := range p.Roots {
+			// an action that occurs twice in the sequence is ONE value (its operations are the same Go objects)
+			// executed twice; every other action of the struct variant is passed as a pointer
+			same := -1
+			for j := 0; j < i; j++ {
+				if canon(p.Roots[j]) == canon(p.Roots[i]) {
+					same = j
+					break
+				}
+			}
+			if same >= 0 && len(specs) > same {
+				specs = append(specs, specs[same])
+				c.Dist("seq:same-action-value-executed-again")
+				continue
+			}
 			if variant == "struct" {
-				specs = append(specs, p.Roots[i].spec())
+				sv := p.Roots[i].spec()
+				if i%2 == 1 {
+					specs = append(specs, &sv)
+				} else {
+					specs = append(specs, sv)
+				}
 				continue
 			}
 			s, txt, err := p.Roots[i].specViaYAML()
@@ -186,6 +220,19 @@ func c12EvalSeq(c *Ctx, raw []byte) {
 // (evidence only: counts how many generated programs exercise that path).
 func c12FailsAtExecution(t string) bool {
 	for _, bad := range []string{".keep.y.", ".keep.x.", ".flagT.", "index .", "template \"", "fail \""} {
+		if strings.Contains(t, bad) {
+			return true
+		}
+	}
+	return false
+}
+
+// c12DoesNotParse: the template text is one of the generated unparsable ones (evidence only).
+func c12DoesNotParse(t string) bool {
+	if refUnclosed(t) {
+		return true
+	}
+	for _, bad := range []string{"{{ end }}", "{{ if }}", "{{ nosuchfunc }}", "{{ else }}", "{{ range }}"} {
 		if strings.Contains(t, bad) {
 			return true
 		}
